@@ -22,7 +22,13 @@ from .values import (
     to_string,
     to_number,
 )
-from .errors import JSError, JSTypeError, MemoryLimitError, TimeLimitError
+from .errors import (
+    JSError,
+    JSSyntaxError,
+    JSTypeError,
+    MemoryLimitError,
+    TimeLimitError,
+)
 
 
 class Context:
@@ -707,8 +713,6 @@ class Context:
                 py_value = json.loads(text)
                 return ctx._to_js(py_value)
             except json.JSONDecodeError as e:
-                from .errors import JSSyntaxError
-
                 raise JSSyntaxError(f"JSON.parse: {e}")
 
         def stringify_fn(*args):
@@ -980,12 +984,11 @@ class Context:
                 else:
                     # Fallback: return a simple empty function
                     return JSFunction("anonymous", params, bytes(), {})
-            except (TimeLimitError, MemoryLimitError):
+            except JSError:
+                # Syntax errors (and limit errors) keep their class
                 raise
             except Exception as e:
-                from .errors import JSError
-
-                raise JSError(f"SyntaxError: {str(e)}")
+                raise JSSyntaxError(str(e))
 
         fn_constructor = JSCallableObject(function_constructor_fn)
 
@@ -1118,11 +1121,10 @@ class Context:
                     # Share the running evaluation's deadline
                     vm.start_time = ctx._current_vm.start_time
                 return vm.run(bytecode_module)
-            except (TimeLimitError, MemoryLimitError):
+            except JSError:
+                # Syntax errors, uncaught script errors and limit errors keep their class
                 raise
             except Exception as e:
-                from .errors import JSError
-
                 raise JSError(f"EvalError: {str(e)}")
 
         return eval_fn
